@@ -624,6 +624,31 @@ func c09TimeAll(c *Ctx, only string) {
 			}
 		}
 	}
+	// two different timestamps whose texts have the same length and the same
+	// 32-bit checksum, folded one after the other under one zone
+	if only == "" {
+		for ki, kind := range mon.SumKinds {
+			for fi, layout := range []string{time.RFC3339, "2006-01-02 15:04:05"} {
+				mkT := func(i int) time.Time {
+					return time.Unix(int64(mon.Hash64(fmt.Sprint(c.Seed, ki, fi, i))%7000000000), 0).UTC()
+				}
+				a, b, ok := mon.Collide(kind, func(i int) string { return mkT(i).Format(layout) }, 1<<21)
+				if !ok {
+					r.Count("time.same-checksum.no-pair-found", 1)
+					continue
+				}
+				ta, _ := time.Parse(layout, a)
+				tb, _ := time.Parse(layout, b)
+				for _, v := range []influxql.Valuer{&influxql.NowValuer{Now: now}, &influxql.NowValuer{Now: now, Location: time.UTC}} {
+					check("'"+a+"' + 1h", v, &influxql.TimeLiteral{Val: ta.Add(time.Hour)})
+					check("'"+b+"' + 1h", v, &influxql.TimeLiteral{Val: tb.Add(time.Hour)})
+					check("'"+a+"' - '"+b+"'", v, &influxql.DurationLiteral{Val: ta.Sub(tb)})
+					check("'"+b+"' > '"+a+"'", v, &influxql.BooleanLiteral{Val: tb.After(ta)})
+				}
+				r.Count("time.same-checksum.pairs", 1)
+			}
+		}
+	}
 	r.Count("time.checked", n)
 	r.Count("time.mismatch", bad)
 	r.Sample(map[string]string{"time_expr": "'2000-01-01T00:00:00Z' + 1h", "expected_fold": "'2000-01-01T01:00:00Z'"})
